@@ -5,4 +5,4 @@ ls -d /root/scratch/mutants/C*.out/[ab] | while read d; do
   id=$(echo $d | sed 's|.*/\(C[0-9]*\)\.out/.*|\1|'); v=$(basename $d)
   echo "$id $v $d"
 done > /root/scratch/seed_jobs.txt
-cat /root/scratch/seed_jobs.txt | xargs -P 3 -L 1 tools/seed_one.sh
+cat /root/scratch/seed_jobs.txt | xargs -P 2 -L 1 tools/seed_one.sh
